@@ -18,7 +18,13 @@
      steps.
    * threads: any number of application threads (ids are nat) + the link thread.  A schedule is a
      list of labels; all theorems quantify over all schedules.
-   * variant Fixed is the code after fixes/c09-1..6 (the code the theorems are about); variant Orig
+   * the link thread's enqueue of a PDU ([LEnq]) is ONE step (state test and append under the socket
+     lock).  For DataLinkConnection.enqueue this is true only after fixes/c09-8 (before it the state
+     was tested outside the lock, a close() by another thread could fall between test and append,
+     and a CC queued to the closed socket made connect() revive it: see revive_needs_empty_queue in
+     Proofs/LlcLife.v and the invariant "a closed DLC has an empty receive queue" it motivates; the
+     harness checks that invariant on every observed segment).
+   * variant Fixed is the code after fixes/c09-1..8 (the code the theorems are about); variant Orig
      keeps the unrepaired behaviour where it differs (used for the refutation witnesses only).
    * abstractions (stated, not hidden): PDUs are reduced to their kind ([item]); the send queue to
      its length; names/addresses to an oracle bit carried by the label (address free, name already
